@@ -792,6 +792,18 @@ class SymStr(str):
                     return -1
                 if _c(a.us, ">", b.us):
                     return 1
+            elif isinstance(a, IntFmt):
+                # a zero-padded fixed-width rendering of a non-negative integer is ordered like the integer
+                if not isinstance(b, IntFmt) or a.spec != b.spec or not (a.spec.startswith("0>") and a.spec[2:].isdigit()):
+                    raise Unsupported("comparison of structured strings of different shape")
+                lim = Poly.const(10 ** int(a.spec[2:]))
+                for v in (a.v, b.v):
+                    if v.den != 1 or not _c(v.p, ">=", Poly.const(0)) or not _c(v.p, "<", lim):
+                        raise Unsupported("integer rendering wider than its field")
+                if _c(a.v.p, "<", b.v.p):
+                    return -1
+                if _c(a.v.p, ">", b.v.p):
+                    return 1
             elif type(a) is str and type(b) is str:  # pylint: disable=unidiomatic-typecheck
                 if len(a) != len(b):
                     raise Unsupported("comparison of structured strings of different shape")
@@ -927,6 +939,21 @@ def vf_fstr(*parts):
     if not sym:
         return "".join(out)
     return SymStr(out)
+
+
+def vf_int(x, *a):
+    """int() replacement: exact for ordinary values; a symbolic number is truncated toward zero symbolically"""
+    if a:
+        return int(x, *a)
+    if isinstance(x, SymInt):
+        if x.den == 1:
+            return x
+        if _c(x.p, ">=", Poly.const(0)):
+            return SymInt(floordiv(x.p, x.den, "int"))
+        return SymInt(-floordiv(-x.p, x.den, "int"))
+    if isinstance(x, SymFloat):
+        raise Unsupported("int() of a symbolic float")
+    return int(x)
 
 
 class IntFmt:
